@@ -555,8 +555,18 @@ int __wrap_pthread_mutex_lock(pthread_mutex_t *m)
   }
   if (owner_of(m) == g.cur)
   {
-    // re-locking a mutex the fiber already owns: fine for a recursive mutex; for a plain one the
-    // real call below blocks forever, which the per-run watchdog reports as `hang`
+    // re-locking a mutex the fiber already owns: fine for a recursive mutex (and an error-checking
+    // one answers EDEADLK); a plain one would block the only OS thread for good - that is a
+    // deadlock of the fiber with itself (typically: an exception left a critical section without
+    // unlocking), reported as such
+    int const kind = m->__data.__kind & 3; // glibc: 0 normal, 1 recursive, 2 errorcheck, 3 adaptive
+    if (kind == 0 || kind == 3)
+    {
+      g.res.deadlock = true;
+      static std::string keep;
+      keep = "deadlock: fiber" + std::to_string(g.cur) + "->fiber" + std::to_string(g.cur) + " (locks a non-recursive mutex it already owns)";
+      abandon(keep.c_str());
+    }
     for (Owner &o : g.owners)
       if (o.m == m)
         ++o.depth;
